@@ -2,13 +2,14 @@
 # Build the Coq development (full .vo build), extract the model and build
 # the OCaml driver.  Usage: build.sh [make-target...]
 set -e
-cd /verif/coq
+ROOT="$(cd "$(dirname "$0")" && pwd)"
+cd "$ROOT/coq"
 coq_makefile -f _CoqProject -o Makefile.coq > /dev/null
 set +e
 timeout 3000 make -f Makefile.coq -j14 "$@" 2>&1 | grep -v "WARNING\|^COQDEP\|^CLEAN"
 rc=${PIPESTATUS[0]}
 set -e
-cd /verif/ocaml
+cd "$ROOT/ocaml"
 need=0
 if [ ! -x driver ] || [ main.ml -nt driver ] || [ ../coq/Extract/Extract.v -nt driver ]; then need=1; fi
 for f in ../coq/Model/*.vo; do if [ "$f" -nt driver ]; then need=1; fi; done
